@@ -238,13 +238,22 @@ func visitInline(fw *formatWriter, source []byte, cursor *commonmark.Cursor) boo
 			return false
 		}
 
-		for s := spanSlice(source, child.Span()); len(s) > 0; {
+		s := spanSlice(source, child.Span())
+		if i := listMarkerEnd(source, cursor); i >= 0 {
+			// Text that looks like a list marker must stay text.
+			fw.b(s[:i])
+			fw.s(`\`)
+			fw.b(s[i : i+1])
+			s = s[i+1:]
+		}
+		for len(s) > 0 {
 			r, n := utf8.DecodeRune(s)
 			if r == '\n' && cursor.ParentBlock().Kind() == commonmark.SetextHeadingKind {
 				s = s[n:]
 				continue
 			}
-			if strings.ContainsRune(`\[]*_-=<>&#~`+"`", r) {
+			if strings.ContainsRune(`\[]*_-=<>&#~`+"`", r) ||
+				r == '!' && len(s) == n && precedesLink(cursor) {
 				fw.s(`\`)
 			}
 			fw.b(s[:n])
@@ -260,6 +269,86 @@ func visitInline(fw *formatWriter, source []byte, cursor *commonmark.Cursor) boo
 		fw.b(spanSlice(source, child.Span()))
 		return false
 	}
+}
+
+// precedesLink reports whether the inline at the cursor is directly followed by a link.
+func precedesLink(cursor *commonmark.Cursor) bool {
+	parent := cursor.Parent()
+	if cursor.Index() < 0 || cursor.Index()+1 >= parent.ChildCount() {
+		return false
+	}
+	next := parent.Child(cursor.Index() + 1).Inline()
+	return next != nil && next.Kind() == commonmark.LinkKind
+}
+
+// listMarkerEnd looks for a "+" or ordered list marker
+// at the start of the line that the text node at the cursor is on.
+// If the marker's last byte lies in that node, listMarkerEnd returns its offset in the node's text.
+// Otherwise, it returns -1.
+// (The other bullet characters are always written escaped.
+// An escaped character is a text node of its own,
+// so the text at the start of a line may be spread over several nodes.)
+func listMarkerEnd(source []byte, cursor *commonmark.Cursor) int {
+	parent := cursor.Parent()
+	if cursor.Index() < 0 {
+		return -1
+	}
+	if parent.Block() == nil && (parent.Inline() == nil || parent.Inline().Kind() != commonmark.LinkKind) {
+		// Other inlines with children are copied from the source.
+		return -1
+	}
+	first := cursor.Index()
+	for ; first > 0; first-- {
+		prev := parent.Child(first - 1).Inline()
+		if prev == nil {
+			return -1
+		}
+		if k := prev.Kind(); k == commonmark.SoftLineBreakKind || k == commonmark.HardLineBreakKind {
+			break
+		} else if k != commonmark.TextKind {
+			return -1
+		}
+	}
+	if first == 0 && parent.Block() == nil {
+		// A link starts with a bracket.
+		return -1
+	}
+	const maxMarkerLength = 10
+	var line []byte
+	start := -1
+	for i := first; i < parent.ChildCount() && len(line) <= maxMarkerLength; i++ {
+		child := parent.Child(i).Inline()
+		if child == nil || child.Kind() != commonmark.TextKind {
+			break
+		}
+		if i == cursor.Index() {
+			start = len(line)
+		}
+		line = append(line, spanSlice(source, child.Span())...)
+	}
+	if start < 0 {
+		return -1
+	}
+
+	n := 0
+	if len(line) > 0 && line[0] == '+' {
+		n = 1
+	} else {
+		for n < len(line) && n < maxMarkerLength-1 && '0' <= line[n] && line[n] <= '9' {
+			n++
+		}
+		if n == 0 || n == len(line) || line[n] != '.' && line[n] != ')' {
+			return -1
+		}
+		n++
+	}
+	if n < len(line) && line[n] != ' ' && line[n] != '\t' && line[n] != '\n' && line[n] != '\r' {
+		return -1
+	}
+	if end := n - 1 - start; 0 <= end && end < cursor.Node().Span().Len() {
+		return end
+	}
+	return -1
 }
 
 func postInline(fw *formatWriter, source []byte, cursor *commonmark.Cursor) {
